@@ -11,9 +11,11 @@ from . import atoms as A
 from . import drv_c
 
 DRIVER_HEAD = r'''
-import struct, sys
+import struct, sys, ctypes
 sys.path.insert(0, ".")
 import MODULE as M
+_mark = ctypes.CDLL("./MODULE.so").vt_marker
+_mark.argtypes = [ctypes.c_char_p]
 
 def rnd(v):
     if v is None:
@@ -30,7 +32,12 @@ def rnd(v):
         return "%d:{%s}" % (len(v), ",".join(rnd(x) for x in v))
     return "<%s>" % type(v).__name__
 
-def show(name, tag, fn):
+def mk(s):
+    """a fresh (not interned, not cached) str object"""
+    return bytes(s, "ascii").decode("ascii")
+
+def show(name, tag, fn, keep=()):
+    _mark(("%s %s" % (name, tag)).encode())
     try:
         r = fn()
     except (TypeError, ValueError) as e:
@@ -43,7 +50,8 @@ def show(name, tag, fn):
         items = []
     else:
         items = [rnd(r)]
-    print("OBS %s %s ->%s" % (name, tag, "".join(" " + i for i in items))); sys.stdout.flush()
+    mut = "".join(" ARG-MUTATED" for obj, orig in keep if obj != orig)
+    print("OBS %s %s ->%s%s" % (name, tag, "".join(" " + i for i in items), mut)); sys.stdout.flush()
 '''
 
 
@@ -86,9 +94,9 @@ def arg_value(atom, v):
     if isinstance(atom, A.CStrOut):
         return []
     if isinstance(atom, A.CStrInout):
-        return [("", pylit(v))]
+        return [("", "mk(%s)" % pylit(v))]
     if isinstance(atom, A.StrOut):
-        return [] if atom.intent == "out" else [("", pylit(v[0]))]
+        return [] if atom.intent == "out" else [("", "mk(%s)" % pylit(v[0] if len(v[0]) > 1 else v[0] + "q"))]
     if isinstance(atom, A.Vec):
         if atom.intent in ("in", "inout"):
             return [("", pylit([float(x) if atom.t.cls != "int" else int(x) for x in v]))]
@@ -123,7 +131,14 @@ def wrong_values(atom):
     return []
 
 
+def py_inout_text(atom, v):
+    """the text actually passed for std::string inout (one-character strings are shared singletons in CPython)"""
+    return v[0] if len(v[0]) > 1 else v[0] + "q"
+
+
 def observe_py(atom, v):
+    if isinstance(atom, A.StrOut) and atom.intent == "inout":
+        return [A.rs(py_inout_text(atom, v) + "+x")]
     if isinstance(atom, A.Vec):
         if atom.intent == "inout":
             return [A.ra(atom.t, atom.lib_result(v))]
@@ -146,6 +161,8 @@ def observe_res_py(res, extra):
 
 
 def recv_py(atom, n, v):
+    if isinstance(atom, A.StrOut) and atom.intent == "inout":
+        return " %s=%s" % (n, A.rs(py_inout_text(atom, v)))
     if isinstance(atom, A.Vec) and atom.intent == "out":
         return ""
     return drv_c.recv_c(atom, n, v)
@@ -163,9 +180,22 @@ def expected(func, plan):
             recv += recv_py(atom, n, v)
     for pt, pn in func.res.extra_params:
         recv += " %s=%d" % (pn, ex)
-    for (atom, n), v in list(zip(func.args, combo))[: nargs - omit if omit else nargs]:
-        obs += observe_py(atom, v)
-    obs = observe_res_py(func.res, ex) + obs
+    # Python has no single precision: a C float comes back as the double holding the same value
+    orig = A.rnd
+    dbl = A.NATIVE["double"]
+
+    def rnd_py(t, v):
+        if t.cls == "real4":
+            return orig(dbl, struct.unpack("<f", struct.pack("<f", v))[0])
+        return orig(t, v)
+
+    A.rnd = rnd_py
+    try:
+        for (atom, n), v in list(zip(func.args, combo))[: nargs - omit if omit else nargs]:
+            obs += observe_py(atom, v)
+        obs = observe_res_py(func.res, ex) + obs
+    finally:
+        A.rnd = orig
     return recv, obs
 
 
@@ -183,6 +213,8 @@ def driver(lib, plans_by_func, module, quick):
         for pi, plan in enumerate(plans_by_func[f.name]):
             combo, ex, omit = plan
             nargs = len(f.args)
+            if any(isinstance(a, A.CStrInout) and len(v) < 2 for (a, _), v in zip(f.args, combo)):
+                continue  # one-character str objects are shared singletons in CPython; see the in-place mutation finding
             pyargs = []  # (keyword, literal, atom)
             for i, ((atom, n), v) in enumerate(zip(f.args, combo)):
                 if omit and i >= nargs - omit:
@@ -195,10 +227,32 @@ def driver(lib, plans_by_func, module, quick):
             k = len(pyargs)
             splits = range(k + 1) if (pi < 3 or not quick) else (0, k)
             for p in sorted(set(splits)):
-                call = ", ".join([lit for _, lit, _ in pyargs[:p]] + ["%s=%s" % (kw, lit) for kw, lit, _ in pyargs[p:]])
+                # arguments the library may write through are bound to names so that the caller's object can be inspected afterwards
+                pre, keep, lits2 = [], [], []
+                for ai, (kw, lit, atom) in enumerate(pyargs):
+                    if isinstance(atom, A.CStrInout):
+                        pre.append("zz%d = %s" % (ai, lit))
+                        keep.append("(zz%d, %s)" % (ai, lit[3:-1]))
+                        lits2.append("zz%d" % ai)
+                    else:
+                        lits2.append(lit)
+                call = ", ".join(lits2[:p] + ["%s=%s" % (pyargs[i][0], lits2[i]) for i in range(p, len(pyargs))])
                 tag = "p%d#%d.%d" % (pi, p, omit)
-                out.append("show(%r, %r, lambda: M.%s(%s))" % (f.name, tag, f.name, call))
+                out += pre
+                out.append("show(%r, %r, lambda: M.%s(%s), [%s])" % (f.name, tag, f.name, call, ", ".join(keep)))
                 exp.append((f.name, tag, "OBS %s %s ->%s" % (f.name, tag, "".join(" " + o for o in obs)), [recv]))
+            if pi == 0 and len(f.defaults) >= 2 and not omit:
+                # a later default given by keyword while an earlier one is left to the library
+                req = len(pyargs) - len(f.defaults)
+                lits = [x[1] for x in pyargs[:req]] + ["%s=%s" % (pyargs[-1][0], pyargs[-1][1])]
+                out.append("show(%r, 'kwskip', lambda: M.%s(%s))" % (f.name, f.name, ", ".join(lits)))
+                recv2 = "RECV " + f.name
+                for i, ((atom, n), v) in enumerate(zip(f.args, combo)):
+                    if req <= i < len(f.args) - 1:
+                        recv2 += atom.recv(n, f.defaults[n][1])
+                    else:
+                        recv2 += recv_py(atom, n, v)
+                exp.append((f.name, "kwskip", "OBS %s kwskip ->%s" % (f.name, "".join(" " + o for o in obs)), [recv2]))
             if pi == 0:
                 # wrong types, one position at a time; too many / too few arguments
                 for j, (kw, lit, atom) in enumerate(pyargs):
